@@ -4,6 +4,7 @@ import (
 	"go/ast"
 
 	"verif/internal/an"
+	"verif/internal/flow"
 )
 
 func init() {
@@ -172,4 +173,41 @@ func runC06(c *Ctx) {
 	if u := c.unit("C06-S5", "node.(*KVNode).applyEntries"); u != nil {
 		r.StoreValues("C06-S5", u, an.LocalStore("isReplaying"), []string{"(ents[i].Index <= recv.rn.lastIndex)"}, 1)
 	}
+}
+
+// S7: a data node with a one-member group answers a write only after the entry is in its WAL. The leader of such a
+// group commits an entry in the very Ready that asks to persist it, and the apply loop — which answers the client — gets
+// the committed entries from publishEntries. So in processReady, whenever the committed entries of the Ready overlap the
+// entries it still has to persist (shouldWaitWALSync) and no snapshot is being installed, publishEntries is preceded by a
+// successful persistRaftState.
+func c06S7(c *Ctx) {
+	r := c.R
+	r.Clause("C06-S7", "committed entries that are still to be persisted are saved before they are published to the apply loop")
+	u := c.unit("C06-S7", "node.(*raftNode).processReady")
+	if u == nil {
+		return
+	}
+	// the decision is taken once, before anything is published (the same value decides that the later save is skipped);
+	// it is held in a local when the code keeps it, which is then the thing to assume
+	assume := "raft.IsEmptySnap(p0.Snapshot) && node.shouldWaitWALSync(p0)"
+	for _, s := range u.Sites {
+		if s.Kind == flow.SStore && s.Local != nil && s.RHS != nil {
+			if t := u.C.Formula(flow.FromExpr(s.RHS)); flow.Implies(t, c.W.Parse(assume)).Holds && flow.Implies(c.W.Parse(assume), t).Holds {
+				assume = u.C.Term(s.LHS)
+			}
+		}
+	}
+	r.Order("C06-S7", u, an.Call("node.(*raftNode).publishEntries"), []an.M{an.Call("node.(*raftNode).persistRaftState").Ok(an.NilErr)},
+		an.OrderOpts{Assume: assume, Min: 1})
+	// the overlap test itself: the last committed entry is not older than the first entry still to persist
+	if su := c.unit("C06-S7", "node.shouldWaitWALSync"); su != nil {
+		r.Truth("C06-S7", su, "!(len(p0.CommittedEntries) == 0 || len(p0.Entries) == 0) && "+
+			"(p0.Entries[0].Term < p0.CommittedEntries[len(p0.CommittedEntries)-1].Term || "+
+			"(p0.CommittedEntries[len(p0.CommittedEntries)-1].Term == p0.Entries[0].Term && !(p0.CommittedEntries[len(p0.CommittedEntries)-1].Index < p0.Entries[0].Index)))", an.Equiv)
+	}
+}
+
+func init() {
+	old := registry["C06"].Run
+	registry["C06"].Run = func(c *Ctx) { old(c); c06S7(c) }
 }
